@@ -357,6 +357,12 @@ fn run_script(r: &mut Report, lab: &Lab, s: &Script, id: &str, rng: &mut Rng, re
             return None;
         }
         Some(k) => match c.read_response(Duration::from_secs(10)) {
+            Ok(Some(m)) if s.timeout_app && m.status() == 408 => {
+                // the harness client was slower than the app's connection timeout between connect and its first byte
+                r.count("slow_scripts_discarded_client_slower_than_timeout", 1);
+                lab.state.pending_ids.lock().unwrap().retain(|x| x != id);
+                return None;
+            }
             Ok(Some(m)) => {
                 let want = accept_for(k.trim_matches(|c| c == ' ' || c == '\t'));
                 if m.status() != 101 || m.header("sec-websocket-accept") != Some(want.as_str()) || !m.header("upgrade").map(|u| u.eq_ignore_ascii_case("websocket")).unwrap_or(false) {
